@@ -71,6 +71,7 @@ func runC09(c *core.Ctx) {
 	c09Union(c)
 	c09Unlimited(c)
 	iteratorsAreRerunnable(c, "C09.R6")
+	noAppendToParameterSlice(c, "C09.R7")
 }
 
 func strConstCmp(cd facts.Cond, fld string, want string) (eq bool, ok bool) {
